@@ -187,7 +187,7 @@ def gglweProductDft (a : List Col) (g : GGLWE) (resSize : Nat) (res0 : List Col)
       let resB := { st.1 with size := g.size - (g.dsize - di - 2) }
       -- vec_znx_dft_copy(dsize, dsize − di − 1, ai_dft, j, a, j): same selection rule as dft_apply
       let ai := dftApplyAll g.dsize (g.dsize - di - 1) ai0 aBuf
-      if di = 0 then (Hal.opVmp resB ai g.toPMat 0, st.2)
+      if di = 0 then (zeroTail (Hal.opVmp resB ai g.toPMat 0) resB.size g.size, st.2)
       else
         let tmp := { st.2 with size := resB.size }
         let tmp := Hal.opVmp tmp ai g.toPMat di
